@@ -1,6 +1,8 @@
 CONSTANTS
   MaxN = 3
   Kinds <- KindsDef
+  Bases <- BasesEmpty
+  MaxSteps = 99
   DUP = FALSE
   SFlaws <- SFlawsAll
 SPECIFICATION Spec
